@@ -11,7 +11,6 @@ import (
 	utils "github.com/corazawaf/coraza/v3/internal/strings"
 	"github.com/corazawaf/coraza/v3/internal/verifhook"
 	"github.com/corazawaf/coraza/v3/types"
-	"github.com/corazawaf/coraza/v3/types/variables"
 )
 
 // RuleGroup is a collection of rules
@@ -295,13 +294,14 @@ type transformationKey struct {
 	// TODO(anuraaga): This is a big hack to support performance on TinyGo. TinyGo
 	// cannot efficiently compute a hashcode for a struct if it has embedded non-fixed
 	// size fields, for example string as we'd prefer to use here. A pointer is usable,
-	// and it works for us since we know that the arg key string is populated once per
-	// transaction phase and we would never have different string pointers with the same
-	// content, or more problematically same pointer for different content, as the strings
-	// will be alive throughout the phase.
-	argKey            *byte
-	argIndex          int
-	argVariable       variables.RuleVariable
+	// and it works for us: the value being transformed is identified by the address and
+	// length of its (immutable) string data. Two arguments can only share both when they
+	// hold the very same bytes, and the cache key keeps the data alive, so its address
+	// cannot be reused for different content while the entry exists. The position of the
+	// value in its collection must not be part of the key: collections are backed by maps
+	// whose iteration order changes between rules.
+	argValue          *byte
+	argLen            int
 	transformationsID int
 }
 
